@@ -12,6 +12,10 @@ def hooks_commits():
 
 # id -> dict(engine, category, technique, text, note, design_ref)
 CHECKS = {
+ "C07": dict(engine="h_filt", category="model_checking", design="§3 C07",
+   technique="explicit-state BFS over emission histories for every generated stack configuration, executed through the real macros on a fresh OS thread with a freshly built Dispatch, against a stack-semantics reference model; state key includes the thread's per-layer-filter bitmap (observation hook)",
+   text="For every generated stack (<= 4 positions of plain / global-filter / per-layer-filtered layers; Layered trees via and_then, Vec, Option, Box, nested Filtered; filters drawn from level thresholds, target tables, EnvFilter static and span-scoped directives, static and context-dependent closures, and/or/not; also two different stacks on two threads) every history up to the stated depth of {event, open+enter span, record, close, enabled! probe} is executed; after every step each recording layer's callbacks, lookup_current() and scope() must equal what the model says: global filters AND the filters on the layer's own path, each evaluated on the spans visible to it.",
+   note="Callsites are pre-registered (first-hit is C01/C04's business). The reference semantics of each filter kind is the model in engine/h_filt/src/stack.rs. tracing-subscriber is built without debug assertions (release behaviour). Known finding F3 (enabled! probe leaves a stale per-layer bit) is attributed exactly: only the layers whose filters rejected the probe may miss the next emission while the bitmap is non-zero."),
  "C09": dict(engine="h_filt", category="exploration", design="§3 C09",
    technique="exhaustive enumeration of a finite configuration matrix (wrapper x nesting x position x method) on statically typed stacks, one fresh process per cell, absolute + differential oracle",
    text="Every generated stack (1-5 recording layers over the Registry or an id-changing recording collector; each of Box, Box<dyn>, Some, vec![_], reload::Subscriber, and_then(Identity) at every position, every nested pair, None / empty Vec at every position, Box/Arc/Box<dyn>/Arc<dyn> around the base collector and around the whole stack; Box<dyn>/Arc<dyn>/Some/reload around a per-layer filter incl. nested pairs) x {interest always, sometimes} x {no veto, enabled-veto by layer k, event_enabled-veto by layer k} runs one workload that exercises every Collect/Subscribe/Filter method; each layer must log each notification exactly once per occurrence, inner before outer, vetoes stop delivery to all, and each layer's view must equal its view in the unwrapped stack.",
